@@ -91,6 +91,9 @@ def main():
         c = CHECKS.get(pid)
         if isinstance(c, tuple):
             level, tech, text, note, ref = c
+            if ";" in level:  # "other; plus `requires`: ..." -> the enum value stays bare, the rest goes into the text
+                level, extra = level.split(";", 1)
+                text = text + " Also" + extra.replace(" plus", "", 1)
             checks.append({
                 "property_id": pid,
                 "quick_cmd": "./check.sh %s quick" % pid,
@@ -122,6 +125,11 @@ def main():
         "not_applicable": na,
         "notes": "All checks are static analyses of /repo's current working tree (SBPF_REPO overrides the tree). check.sh rebuilds the checker when its sources are newer than bin/sbpfcheck. Known findings: known_findings.json. Design: DESIGN.md.",
     }
+    try:
+        import jsonschema
+        jsonschema.validate(m, json.load(open("/root/.vp/MANIFEST.schema.json")))
+    except ImportError:
+        print("warning: jsonschema not importable; manifest not validated")
     json.dump(m, open(os.path.join(HERE, "MANIFEST.json"), "w"), indent=1)
     print("claimed:", [c["property_id"] for c in checks], "not claimed:", [n["property_id"] for n in na])
 
